@@ -139,3 +139,78 @@ Theorem C11_heyawake_exact : forall h w room clue st ans,
                           (List.cons room (List.cons clue nil))) ans = true).
 Proof. exact heyawake_exact. Qed.
 Print Assumptions C11_heyawake_exact.
+
+(* Tier 1, gokigen (slant), every board shape (also without cells) and every layout of point clues (any negative
+   value = no clue, any value >= 0 = clue); the "no closed loop" rule through property C09's theorems about
+   graph.active_edges_acyclic (Acyclic.post_acyclic on the graph of both diagonals of every cell with flags
+   edge_type / ~edge_type), and GokigenForest.edges_acyclic_forest: #lines + #components = #points iff every
+   drawn line is a bridge *)
+From Cspuz Require Import Graph.Acyclic Puzzle.Rules_gokigen Puzzle.Gokigen Puzzle.GokigenForest Puzzle.GokigenProofs.
+Theorem C11_gokigen_exact : forall h w clue st ans,
+  solve_gokigen_model (List.cons (List.cons (Z.of_nat h) (List.cons (Z.of_nat w) nil)) (List.cons clue nil)) = Ok st ->
+  ((exists en, model_of no_graph en st /\ reads st en (seq 0 (h * w)) = ans)
+   <-> rules_gokigen (List.cons (List.cons (Z.of_nat h) (List.cons (Z.of_nat w) nil)) (List.cons clue nil)) ans = true).
+Proof. exact gokigen_exact. Qed.
+Print Assumptions C11_gokigen_exact.
+
+(* the rule vocabulary's "#edges + #components = #vertices" is C09's forest (every selected edge is a bridge),
+   for every well-formed multigraph and every edge selection *)
+Theorem C11_edges_acyclic_forest : forall g A, GraphModel.wf_graph g = true ->
+  (edges_acyclic g A = true <-> Acyclic.forest g A).
+Proof. exact GokigenForest.edges_acyclic_forest. Qed.
+Print Assumptions C11_edges_acyclic_forest.
+
+(* Tier 1, slitherlink, every board shape (height, width >= 0, also boards without cells) and every clue layout;
+   the single-loop rule through property C06's theorems about graph.active_edges_single_cycle on a BoolGridFrame
+   (Cycle.active_edges_single_cycle, auxiliary-variable route; composition theorem CycleCompose.cycle_frame_compose).
+   Programs of this module contain no native graph operator. *)
+From Cspuz Require Import Puzzle.Rules_slitherlink Puzzle.Slitherlink Puzzle.SlitherlinkProofs.
+Theorem C11_slitherlink_exact : forall h w clues st ans,
+  solve_slitherlink_model (List.cons (List.cons (Z.of_nat h) (List.cons (Z.of_nat w) nil)) (List.cons clues nil)) = Ok st ->
+  ((exists en, model_of no_graph en st /\ reads st en (seq 0 (S h * w + h * S w)) = ans)
+   <-> rules_slitherlink (List.cons (List.cons (Z.of_nat h) (List.cons (Z.of_nat w) nil)) (List.cons clues nil)) ans = true).
+Proof. exact slitherlink_exact. Qed.
+Print Assumptions C11_slitherlink_exact.
+
+(* Tier 1, view, every board shape and every layout of given numbers (a cell value >= 0 is a given number, any
+   negative value an empty cell).  The answer is read on the variables of nums (ids 3hw .. 4hw-1, declared after
+   the connectivity helper's 2hw auxiliary variables) followed by those of has_number (ids 0 .. hw-1), the order
+   in which solve_view registers its answer keys.  Connectivity of the number cells through property C04's
+   theorems (avc_eval, cert_sound, cert_complete; Puzzle/ViewCompose.v); the four auxiliary distance grids
+   to_up / to_down / to_left / to_right are proved to be determined by their recurrences (they are the sight
+   distances of the rules) and, conversely, the sight distances of a rule-obeying answer are proved to lie in the
+   declared domains 0 .. h-1 / 0 .. w-1 and to satisfy the recurrences *)
+From Cspuz Require Import Graph.Avc Puzzle.Rules_view Puzzle.View Puzzle.ViewProofs.
+Theorem C11_view_exact : forall h w grid st ans,
+  solve_view_model (List.cons (List.cons (Z.of_nat h) (List.cons (Z.of_nat w) nil)) (List.cons grid nil)) = Ok st ->
+  ((exists en, model_of gsem_avc en st /\
+               reads st en (seq (3 * (h * w)) (h * w) ++ seq 0 (h * w)) = ans)
+   <-> rules_view (List.cons (List.cons (Z.of_nat h) (List.cons (Z.of_nat w) nil)) (List.cons grid nil)) ans = true).
+Proof. exact view_exact. Qed.
+Print Assumptions C11_view_exact.
+
+(* Tier 1, nurikabe (after fix 51000d9), every board shape and every layout of numbers and '?': the program posted by
+   solve_nurikabe (model Puzzle/Nurikabe.v - the division grid, graph.division_connected = the model of property C05 with
+   one group per clue plus the wall group, is_white <-> division != 0, equal labels on adjacent white cells, no 2x2 wall,
+   island sizes - tied to the Python by program capture) has a model whose answer-key variables (the is_white grid, declared
+   after the existential division / rank / is_root / spanning_forest variables) read as [ans] exactly when [ans] obeys the
+   published rules.  The hypothesis holds exactly for the boards with at least one cell and a full clue list. *)
+From Cspuz Require Import Graph.Division Puzzle.DivisionCompose Puzzle.Rules_nurikabe Puzzle.Nurikabe Puzzle.NurikabeProofs.
+Theorem C11_nurikabe_exact : forall h w grid st ans,
+  solve_nurikabe_model (List.cons (List.cons (Z.of_nat h) (List.cons (Z.of_nat w) nil)) (List.cons grid nil)) = Ok st ->
+  ((exists en, model_of division_gsem en st /\ reads st en (key_ids st) = ans)
+   <-> rules_nurikabe (List.cons (List.cons (Z.of_nat h) (List.cons (Z.of_nat w) nil)) (List.cons grid nil)) ans = true).
+Proof. exact nurikabe_exact. Qed.
+Print Assumptions C11_nurikabe_exact.
+
+Theorem C11_nurikabe_key_ids : forall h w grid st,
+  solve_nurikabe_model (List.cons (List.cons (Z.of_nat h) (List.cons (Z.of_nat w) nil)) (List.cons grid nil)) = Ok st ->
+  key_ids st = List.seq (3 * (h * w) + length (GraphModel.grid_edges h w)) (h * w).
+Proof. exact nurikabe_key_ids. Qed.
+Print Assumptions C11_nurikabe_key_ids.
+
+Theorem C11_nurikabe_model_defined : forall h w grid,
+  (exists st, solve_nurikabe_model (List.cons (List.cons (Z.of_nat h) (List.cons (Z.of_nat w) nil)) (List.cons grid nil)) = Ok st)
+  <-> (0 < h * w <= length grid)%nat.
+Proof. exact nurikabe_model_defined. Qed.
+Print Assumptions C11_nurikabe_model_defined.
